@@ -4,28 +4,33 @@ From RL4CO Require Import Base.Num Base.EnvSig Spec.Routes Env.OP Env.OPProofs.
 Import ListNotations.
 Open Scope Z_scope.
 
-(* for action lists that end at the depot (every completed episode does) the checker DECIDES the specification
-   relaxed by exactly its own tolerance: accepted <=> no customer twice, existing nodes only, and
-   closed length <= original max_length + 1e-5 *)
+(* for EVERY action list -- whether or not it ends at the depot, whether or not it passes through the depot -- the
+   checker DECIDES the specification relaxed by exactly its own tolerance: accepted <=> no customer twice, existing
+   nodes only, and the closed walk depot -> actions -> depot is at most original max_length + 1e-5 long.
+   (Before the repair 728e3da of /repo this held only for lists ending at the depot; the refutation witness of the
+   unrestricted statement is recorded as fixed in known_findings.json and stays in the correspondence stream.) *)
 Theorem C06_op_checker_iff :
   forall (i : op_inst) (acts : list nat),
-    op_wf i -> acts <> [] -> last acts 0%nat = 0%nat ->
+    op_wf i ->
     (op_checker exact i acts = true <->
      (forall j, (1 <= j)%nat -> (occ j acts <= 1)%nat) /\ (forall a, In a acts -> (a <= op_n i)%nat) /\
      sumZ (map (route_len (odfun i)) (routes acts)) <= maxlen i + otol i).
 Proof. exact op_checker_iff. Qed.
 Print Assumptions C06_op_checker_iff.
 
-(* completeness for ANY feasible action list, including one that never returns to the depot, given the single
-   instance of the triangle inequality that compares the checker's closing leg last -> first with the detour over
-   the depot (trivially true when the list ends at the depot) *)
+(* completeness: every feasible action list is accepted, also one that never returns to the depot; no metric fact *)
 Theorem C06_op_checker_complete :
   forall (i : op_inst) (acts : list nat),
-    op_wf i -> 0 <= otol i -> op_feasible i acts ->
-    odfun i (last acts 0%nat) (hd 0%nat acts) <= odfun i (last acts 0%nat) 0%nat + odfun i 0%nat (hd 0%nat acts) ->
-    op_checker exact i acts = true.
+    op_wf i -> 0 <= otol i -> op_feasible i acts -> op_checker exact i acts = true.
 Proof. exact op_checker_complete. Qed.
 Print Assumptions C06_op_checker_complete.
+
+(* ... in particular every mask-made action list (C01 + completeness) *)
+Theorem C06_op_checker_accepts_mask_made :
+  forall (i : op_inst) (acts : list nat),
+    op_wf i -> 0 <= otol i -> adm (E:=OP exact) i acts = true -> op_checker exact i acts = true.
+Proof. exact op_checker_accepts_mask_made. Qed.
+Print Assumptions C06_op_checker_accepts_mask_made.
 
 Theorem C06_op_checker_rejects_duplicate :
   forall (i : op_inst) (acts : list nat) (j : nat),
@@ -41,24 +46,19 @@ Print Assumptions C06_op_checker_rejects_unknown_node.
 
 Theorem C06_op_checker_rejects_overlength :
   forall (i : op_inst) (acts : list nat),
-    op_wf i -> acts <> [] -> last acts 0%nat = 0%nat ->
-    maxlen i + otol i < sumZ (map (route_len (odfun i)) (routes acts)) ->
+    op_wf i -> maxlen i + otol i < sumZ (map (route_len (odfun i)) (routes acts)) ->
     op_checker exact i acts = false.
 Proof. exact op_checker_rejects_overlength. Qed.
 Print Assumptions C06_op_checker_rejects_overlength.
 
-(* FINDING (faithful model): without the final depot the checker measures only the cycle through the listed nodes
-   and ignores both depot legs, so the soundness half does NOT extend to action lists that do not end at the depot:
-   an over-length tour is accepted.  Reproduced on the real checker by the harness. *)
-Theorem C06_op_checker_noreturn_refuted :
-  exists (i : op_inst) (acts : list nat),
-    op_wf i /\ 0 <= otol i /\ op_checker exact i acts = true /\
-    maxlen i + otol i < sumZ (map (route_len (odfun i)) (routes acts)).
-Proof. exact op_checker_noreturn_refuted. Qed.
-Print Assumptions C06_op_checker_noreturn_refuted.
+(* the former witness (depot at distance 10 from the single customer, limit 5, action list [1]) is now rejected *)
+Example C06_op_former_noreturn_witness_rejected :
+  let i := {| prz := [1]; maxlen := 5; eps := 0; odist := [[0; 10]; [10; 0]]; otol := 0 |} in
+  op_wfb i = true /\ op_checker exact i [1]%nat = false /\ op_checker exact i [1; 0]%nat = false.
+Proof. vm_compute. auto. Qed.
 
 Example C06_op_nonvacuous :
   let i := {| prz := [10; 20]; maxlen := 12; eps := 1; odist := [[0; 3; 4]; [3; 0; 5]; [4; 5; 0]]; otol := 0 |} in
-  op_checker exact i [1; 2; 0]%nat = true /\ op_checker exact i [1; 1; 0]%nat = false /\
+  op_checker exact i [1; 2; 0]%nat = true /\ op_checker exact i [1; 2]%nat = true /\ op_checker exact i [1; 1; 0]%nat = false /\
   op_checker exact i [1; 0; 2; 0]%nat = false /\ op_checker exact i [1; 2; 0; 0]%nat = true.
 Proof. vm_compute. auto. Qed.
